@@ -186,6 +186,19 @@ def rule_resample(ctx):
     f = ctx.program.func("multipitch.resample_multipitch", R)
     s = ctx.S.get(f.qual)
     ip = [c for c in s.calls() if c.callee == "scipy.interpolate.interp1d"]
+    if not ip:
+        # another nearest-frame lookup: both out-of-range sides must be sent to the empty frame explicitly
+        sides = set()
+        for m in s.by_kind("mutate"):
+            if m.how == "setitem" and m.key is not None and m.key.op == "cmp" and "target_times" in tm.params_of(m.key) and "times" in tm.params_of(m.key):
+                a, b = m.key.a[1], m.key.a[2]
+                if "target_times" in tm.params_of(a):
+                    sides.add("below")  # target < times[k]
+                else:
+                    sides.add("above")  # times[k] < target
+        if sides and sides != {"below", "above"}:
+            yield ob(R, f, "multipitch.resample_multipitch:bounds", False, "the nearest-frame lookup was re-implemented and only target times %s the estimate's range are sent to the empty frame: times on the other side receive the first/last estimate frame" % ("above" if "above" in sides else "below"), node=None)
+            return
     need(len(ip) == 1, R, "resample_multipitch: interp1d call not found")
     kw = dict(ip[0].kw)
     yield ob(R, f, "multipitch.resample_multipitch:kind", "kind" in kw and tm.is_const(kw["kind"], "nearest"), "frames are taken from the nearest estimate time (kind=%s)" % (tm.show(kw.get("kind"), 1) if "kind" in kw else "default linear"), node=ip[0].node)
@@ -274,7 +287,19 @@ def rule_countform(ctx):
     yield ob(R, f, "multipitch.compute_num_freqs:size", good, why, node=s.returns[0].node)
 
 
+def rule_matchsrc(ctx):
+    """Shared with C05.MATCHSRC: every return of util.match_events is the one-to-one matching, so a frame's true positives
+    never exceed min(#ref, #est)."""
+    from . import c05
+
+    for o in c05.rule_matchsrc(ctx):
+        if o.construct.startswith("util.match_events") or "multipitch" in o.what:
+            o.rule = "C18.MATCHSRC"
+            yield o
+
+
 RULES = [
+    ("C18.MATCHSRC", 2, rule_matchsrc),
     ("C18.COUNTFORM", 1, rule_countform),
     ("C18.SAMEWINDOW", 8, rule_samewindow),
     ("C18.IDENT", 6, rule_ident),
